@@ -544,7 +544,8 @@ class CorrelationFunction(DFunction, UnitsManaged):
             if other.cutoff_time > self.cutoff_time: 
                 self.cutoff_time = other.cutoff_time  
                 
-            for p in other.params:
+            # (a copy of the list: the other function may be this one)
+            for p in list(other.params):
                 self.params.append(p)
                 
             self._is_composed = True
@@ -617,7 +618,8 @@ class CorrelationFunction(DFunction, UnitsManaged):
         by numerical transformation from spectral density.
         """
 
-        return bool(self.params["ftype"] in self.analytical_types)
+        # (params is the list of the components' dictionaries)
+        return all(p["ftype"] in self.analytical_types for p in self.params)
 
 
     def get_temperature(self):
@@ -637,7 +639,7 @@ class CorrelationFunction(DFunction, UnitsManaged):
         """Returns correlation time associated with the first component 
         of the bath correlation function
         """
-        return self.params[0]["ctime"]
+        return self.params[0]["cortime"]
 
     def measure_reorganization_energy(self):
         """Calculates the reorganization energy of the correlation function
